@@ -138,6 +138,11 @@ def check_config(ctx, F, tag):
                 okd = len(aggs) >= 1
                 header = None
                 from guards import fact_nonzero, fact_zero
+                if any("data_len" not in st["rv"]["fields"] for bi, st in aggs):
+                    # the view no longer records the header element: its length can then only come from the nested view, which
+                    # need not cover the whole payload the header announces
+                    okd = False
+                    aggs = []
                 for bi, st in aggs:
                     ops = dict(zip(st["rv"]["fields"], st["rv"]["ops"]))
                     dl = strip_casts(b.term_of_operand(ops["data_len"]))
